@@ -6,7 +6,7 @@ from hexlib import _nib
 from trie.iter import NodeIterator
 
 ID = "C10"
-LEAN_IMPORTS = ["PyTrie.Props.C10", "PyTrie.Props.C10Raw", "PyTrie.Props.RawLevel", "PyTrie.Props.NonVacuity2", "PyTrie.Props.NonVacuity8"]
+LEAN_IMPORTS = ["PyTrie.Props.C10", "PyTrie.Props.C10Raw", "PyTrie.Props.RawLevel", "PyTrie.Props.NonVacuity2", "PyTrie.Props.NonVacuity8", "PyTrie.Props.C10Blocks"]
 THEOREMS = [
     "PyTrie.Props.C10.plt_nibs",
     "PyTrie.Props.C10.stored_path_is_key",
@@ -32,6 +32,8 @@ THEOREMS = [
     "PyTrie.Props.Raw.key_after_refines",
     "PyTrie.Props.NonVacuity2.next_key_witness",
     "PyTrie.Props.NonVacuity2.key_after_witness",
+    "PyTrie.Props.C10.raw_nodes_is_preorder_blocks",
+    "PyTrie.Props.C10.raw_items_exact_blocks",
 ]
 RULE = ("tries built by generated histories (keys that are prefixes of other keys, the empty key, embedded nodes, values on "
         "branches, children 0 and 15); keys()/items()/values()/nodes() sequences and next(k) for every stored key, its "
@@ -51,7 +53,7 @@ def gen_cases(rng, tier):
         else:
             keys = hexlib.gen_universe(rng, rng.randint(1, 10))
         values = [hexlib.gen_value(rng) for _ in range(3)]
-        ops = hexlib.gen_history(rng, keys, values, rng.randint(1, 16), batch_prob=0.0)
+        ops = hexlib.gen_history(rng, keys, values, rng.randint(1, 16), batch_prob=0.15)
         yield {"prune": rng.random() < 0.3, "ops": ops, "pseed": rng.randrange(1 << 30)}
     yield {"prune": False, "ops": [], "pseed": 0}
     yield {"prune": False, "ops": [["set", "", "61"]], "pseed": 0}
@@ -63,6 +65,10 @@ def run_case(case):
     its = {}
 
     def observe(runner, tg, trie, model):
+        if tg == "b":
+            # inside a squash_changes block the batch trie is a temporary object over a ScratchDB; the iterators of this
+            # check belong to the outer trie and are looked at again when the block has been left
+            return
         # an earlier version of the trie, for the interleaved walks below (non-pruning: its nodes stay in the database)
         if tg == "0" and not case["prune"] and len(model) >= 2 and "old" not in its:
             its["old"] = (trie.root_hash, dict(model))
